@@ -1,16 +1,11 @@
 import OhkamiModel.M.Dir
+import OhkamiModel.M.DirComplete
 import OhkamiModel.P.ChainProofs
+import OhkamiModel.P.StaticTable
 /-! # C19 — property theorems.  A mounted directory registers static routes only, so "nothing else is served" is the
 routing specification (C01) specialised to static route tables. -/
 namespace C19
 open Ohkami
-
-def AllStatic (r : Route) : Prop := ∀ s ∈ r, ∃ b, s = Seg.static b
-
-def staticBytes : Route → List Bytes
-  | [] => []
-  | .static b :: r => b :: staticBytes r
-  | .param :: r => staticBytes r
 
 /-- a route without params matches exactly its own segment list and captures nothing -/
 theorem matches_static_exact : ∀ (r : Route) (segs ps : List Bytes), AllStatic r → Matches r segs ps → segs = staticBytes r ∧ ps = [] := by
@@ -58,5 +53,45 @@ theorem derive_all_static (mount omits : List Bytes) : ∀ (files : List Dir.Fil
             obtain ⟨b, _, rfl⟩ := List.mem_map.mp hs
             exact ⟨b, rfl⟩
           · exact ih (i + 1) more hmore rh h2
+
+theorem nodup_routes_unique : ∀ (rs : List (Route × Nat)) (r : Route) (a b : Nat), NodupRoutes rs → (r, a) ∈ rs → (r, b) ∈ rs → a = b := by
+  intro rs
+  induction rs with
+  | nil => intro r a b _ h; cases h
+  | cons x rs ih =>
+    intro r a b hn ha hb
+    simp only [NodupRoutes, List.map_cons, List.nodup_cons] at hn
+    obtain ⟨hx, hn'⟩ := hn
+    have notin : ∀ c, (r, c) ∈ rs → x.1 = r → False := fun c hc e => hx (e ▸ List.mem_map.mpr ⟨(r, c), hc, rfl⟩)
+    rcases List.mem_cons.mp ha with rfl | ha' <;> rcases List.mem_cons.mp hb with hb' | hb'
+    · cases hb'; rfl
+    · exact (notin b hb' rfl).elim
+    · subst hb'; exact (notin a ha' rfl).elim
+    · exact ih r a b hn' ha' hb'
+
+/-- **Every file is served, at each of its paths**: when the start-up succeeds (`derive` accepts the file list and no two files claim one
+route), then for every regular file of the list and each path the property assigns to it — the mount route followed by its relative
+path, for `index.html` also its directory path, configured extensions cut off (`fileRoutes`) — the routing specification answers
+exactly that path with that very file (index `k`: its bytes, the media type of its extension), capturing nothing. -/
+theorem every_file_served (mount omits : List Bytes) (files : List Dir.FileEntry) (routes : List (Route × Nat))
+    (hd : Dir.derive mount omits files 0 = .ok routes) (hmount : ∀ s ∈ mount, s ≠ []) (hnd : NodupRoutes routes)
+    (k : Nat) (f : Dir.FileEntry) (hk : files[k]? = some f) :
+    ∃ paths mime, Dir.fileRoutes omits f = .ok (paths, mime) ∧
+      ∀ p ∈ paths, greedyChain ((mount ++ p).length + 1) routes (mount ++ p) = some (k, []) := by
+  obtain ⟨paths, mime, h1, h2⟩ := Dir.derive_complete mount omits files 0 routes hd k f hk
+  refine ⟨paths, mime, h1, ?_⟩
+  intro p hp
+  have hm := h2 p hp
+  have hall := derive_all_static mount omits files 0 routes hd
+  have hwf := Dir.derive_wf mount omits hmount files 0 routes hd
+  obtain ⟨h', hg, hm'⟩ := static_complete ((mount ++ p).length + 1) routes _ _ hm hall hwf (by simp)
+  rw [staticBytes_map] at hg
+  have : h' = 0 + k := nodup_routes_unique routes _ _ _ hnd hm' hm
+  rw [hg, this]; simp
+
+/-- the premises are met: two files, one of them an index.html, under the mount `/pub` -/
+example : ∃ routes, Dir.derive [[112, 117, 98]] [] [⟨[[97, 46, 116, 120, 116]], [104, 105]⟩, ⟨[[100], [105, 110, 100, 101, 120, 46, 104, 116, 109, 108]], [60, 112, 62]⟩] 0 = .ok routes
+    ∧ routes.length = 3 := by
+  refine ⟨_, rfl, rfl⟩
 
 end C19
